@@ -63,6 +63,7 @@ type input struct {
 	ops   []w1.DOp
 	kind  string
 	note  string
+	frame bool // a length / CRC frame field was set to a value that disagrees with the data: must be an error
 }
 
 // the length / count prefix of one top-level put-call: its wire form and the values to try
@@ -160,15 +161,15 @@ func main() {
 	}
 
 	// corpus: the witnesses of the pre-fix defects
-	add(input{[]byte{0x00}, 0, []w1.DOp{{Op: "compactstring"}}, "corpus", "compact string with null length"})
-	add(input{[]byte{0x7f, 0x41}, 0, []w1.DOp{{Op: "compactstring"}}, "corpus", "compact string longer than the buffer"})
-	add(input{[]byte{0x7f, 0x41}, 0, []w1.DOp{{Op: "compactnullablestring"}}, "corpus", "compact nullable string longer than the buffer"})
-	add(input{[]byte{0x00, 0x00, 0x7f, 0xff, 0xff, 0xff}, 0, []w1.DOp{{Op: "int16"}, {Op: "stringarray"}}, "corpus", "JoinGroup member metadata: string array count 2^31-1"})
-	add(input{[]byte{0xff, 0xff, 0xff, 0xfe}, 0, []w1.DOp{{Op: "arraylength"}}, "corpus", "metadata response: array length -2"})
-	add(input{[]byte{0xff, 0xff, 0xff, 0xff, 0x0f, 1, 2, 3}, 0, []w1.DOp{{Op: "compactint32array"}}, "corpus", "compact int32 array count 2^32-2"})
-	add(input{[]byte{0xff, 0xff, 0xff, 0xff, 0xff, 0xff, 0xff, 0xff, 0xff, 0x01}, 0, []w1.DOp{{Op: "compactint32array"}}, "corpus", "compact int32 array count 2^64-2"})
-	add(input{[]byte{0x03, 0, 0, 0, 1}, 0, []w1.DOp{{Op: "compactint32array"}}, "corpus", "compact int32 array: 2 announced, 1 present"})
-	add(input{[]byte{0x80, 0x80, 0x80, 0x80, 0x10}, 0, []w1.DOp{{Op: "compactarraylength"}}, "corpus", "compact array length 2^32"})
+	add(input{[]byte{0x00}, 0, []w1.DOp{{Op: "compactstring"}}, "corpus", "compact string with null length", false})
+	add(input{[]byte{0x7f, 0x41}, 0, []w1.DOp{{Op: "compactstring"}}, "corpus", "compact string longer than the buffer", false})
+	add(input{[]byte{0x7f, 0x41}, 0, []w1.DOp{{Op: "compactnullablestring"}}, "corpus", "compact nullable string longer than the buffer", false})
+	add(input{[]byte{0x00, 0x00, 0x7f, 0xff, 0xff, 0xff}, 0, []w1.DOp{{Op: "int16"}, {Op: "stringarray"}}, "corpus", "JoinGroup member metadata: string array count 2^31-1", false})
+	add(input{[]byte{0xff, 0xff, 0xff, 0xfe}, 0, []w1.DOp{{Op: "arraylength"}}, "corpus", "metadata response: array length -2", false})
+	add(input{[]byte{0xff, 0xff, 0xff, 0xff, 0x0f, 1, 2, 3}, 0, []w1.DOp{{Op: "compactint32array"}}, "corpus", "compact int32 array count 2^32-2", false})
+	add(input{[]byte{0xff, 0xff, 0xff, 0xff, 0xff, 0xff, 0xff, 0xff, 0xff, 0x01}, 0, []w1.DOp{{Op: "compactint32array"}}, "corpus", "compact int32 array count 2^64-2", false})
+	add(input{[]byte{0x03, 0, 0, 0, 1}, 0, []w1.DOp{{Op: "compactint32array"}}, "corpus", "compact int32 array: 2 announced, 1 present", false})
+	add(input{[]byte{0x80, 0x80, 0x80, 0x80, 0x10}, 0, []w1.DOp{{Op: "compactarraylength"}}, "corpus", "compact array length 2^32", false})
 
 	base := [][]w1.EOp{}
 	for _, s := range w1.BoundaryScripts() {
@@ -192,13 +193,13 @@ func main() {
 		}
 		dops := w1.DOps(ops)
 		enc := res.Bytes
-		add(input{enc, 0, dops, "valid", ""})
+		add(input{enc, 0, dops, "valid", "", false})
 		// truncations
 		for k := 0; k < len(enc); k++ {
 			if len(enc) > 96 && k > 64 && k != len(enc)-1 && r.Intn(len(enc)/24) != 0 {
 				continue
 			}
-			add(input{enc[:k], 0, dops, "truncate", fmt.Sprintf("first %d of %d bytes", k, len(enc))})
+			add(input{enc[:k], 0, dops, "truncate", fmt.Sprintf("first %d of %d bytes", k, len(enc)), false})
 		}
 		// bit flips
 		for p := 0; p < len(enc) && p < 64; p++ {
@@ -208,7 +209,7 @@ func main() {
 				}
 				b := append([]byte{}, enc...)
 				b[p] ^= 1 << uint(bit)
-				add(input{b, 0, dops, "bitflip", fmt.Sprintf("bit %d of byte %d", bit, p)})
+				add(input{b, 0, dops, "bitflip", fmt.Sprintf("bit %d of byte %d", bit, p), false})
 			}
 		}
 		// length / count fields of the top-level calls
@@ -243,7 +244,7 @@ func main() {
 				if k == "frame" {
 					k += "-" + ops[i].Kind
 				}
-				add(input{b, 0, dops, "field", fmt.Sprintf("length/count field of call %d (%s)", i, k)})
+				add(input{b, 0, dops, "field", fmt.Sprintf("length/count field of call %d (%s)", i, k), ops[i].Op == "frame" && string(b) != string(enc)})
 			}
 		}
 	}
@@ -283,7 +284,7 @@ func main() {
 			}
 			ops = append(ops, o)
 		}
-		add(input{buf, start, ops, "random", ""})
+		add(input{buf, start, ops, "random", "", false})
 	}
 
 	self, err := os.Executable()
@@ -332,6 +333,8 @@ func main() {
 		}
 		if class != "" {
 			mon = &cf.Monitor{Signature: fmt.Sprintf("prim:%s:%s", class, rs.Where), What: fmt.Sprintf("%s on %d input bytes (%s %s) %s", class, len(in.buf), in.kind, in.note, rs.Panic)}
+		} else if in.frame && rs.Status == 0 {
+			mon = &cf.Monitor{Signature: "prim:frame-field-not-verified", What: fmt.Sprintf("a length / CRC field that disagrees with the data was accepted (%s)", in.note)}
 		}
 		desc := map[string]interface{}{"buf": w1.Hex(in.buf), "start": in.start, "ops": in.ops, "mutation": in.kind, "note": in.note, "status": rs.Status, "off": rs.Off, "alloc": rs.Alloc}
 		wd.Add(w1.DCaseTerm(in.buf, in.start, in.ops, rs.Vals, rs.Status, rs.Off), cf.Sidecar{Case: desc, Kind: "malformed-" + in.kind, Nontrivial: len(in.buf) > 1, Monitor: mon})
